@@ -533,6 +533,18 @@ def sweep_sshsig(world, signer, masks):
 SSH_KEYGEN = shutil.which('ssh-keygen')
 
 
+def _run(cmd, **kw):
+    for timeout in (60, 600):           # a loaded machine: retry once, long
+        try:
+            return subprocess.run(cmd, stdout=subprocess.PIPE,
+                                  stderr=subprocess.PIPE, timeout=timeout,
+                                  **kw)
+        except subprocess.TimeoutExpired:
+            if timeout == 600:
+                raise
+    raise AssertionError
+
+
 class Scratch:
     def __init__(self, workroot, prefix):
         os.makedirs(workroot, exist_ok=True)
@@ -559,10 +571,9 @@ def keygen_verify(scr, msg, sig_armored, allowed_text, now, namespace=NS,
         return None
     s = scr.write('v.sig', sig_armored)
     a = scr.write('v.allowed', allowed_text)
-    p = subprocess.run([SSH_KEYGEN, '-Y', 'verify', '-f', a, '-I', principal,
-                        '-n', namespace, '-s', s, '-Overify-time=' + ts(now)],
-                       input=msg, stdout=subprocess.PIPE,
-                       stderr=subprocess.PIPE, timeout=20)
+    p = _run([SSH_KEYGEN, '-Y', 'verify', '-f', a, '-I', principal,
+              '-n', namespace, '-s', s, '-Overify-time=' + ts(now)],
+             input=msg)
     return p.returncode == 0
 
 
@@ -577,9 +588,7 @@ def keygen_sign(scr, key, msg, namespace=NS):
         os.remove(mf + '.sig')
     except OSError:
         pass
-    p = subprocess.run([SSH_KEYGEN, '-Y', 'sign', '-f', kf, '-n', namespace,
-                        mf], stdout=subprocess.PIPE, stderr=subprocess.PIPE,
-                       timeout=20)
+    p = _run([SSH_KEYGEN, '-Y', 'sign', '-f', kf, '-n', namespace, mf])
     if p.returncode != 0:
         return None
     with open(mf + '.sig', 'rb') as f:
@@ -591,8 +600,7 @@ def keygen_list_cert(scr, line):
     if not SSH_KEYGEN:
         return None
     c = scr.write('c-cert.pub', line)
-    p = subprocess.run([SSH_KEYGEN, '-L', '-f', c], stdout=subprocess.PIPE,
-                       stderr=subprocess.PIPE, timeout=20)
+    p = _run([SSH_KEYGEN, '-L', '-f', c])
     if p.returncode != 0:
         return None
     out = p.stdout.decode('utf-8', 'replace')
